@@ -73,6 +73,14 @@ fn main() {
             }
             0
         }
+        Some("ucount") => {
+            for quick in [true, false] {
+                let g = vx_core::plans::universal(quick);
+                let n = vx_core::gen::generate(&g, 50_000_000, &mut |_| true);
+                println!("universal family quick={quick}: {n} programs");
+            }
+            0
+        }
         Some("freerun") => freerun(args.get(2).and_then(|s| s.parse().ok()).unwrap_or(10)),
         Some("replay") => vx_core::check::replay_main(args.get(2).expect("replay file")),
         _ => {
